@@ -94,6 +94,15 @@ def h_info(ctx, n, rho):
                   ctx.close(info['e'], teneva.accuracy(Y, olds[-1]), 1e-9))
 
 
+def h_interrupted_info(ctx, which):
+    """info / cache statements of C05 on interrupted runs (set-ups shared with C06)."""
+    from harness import c06
+    if which == 'e_vld_on_interrupt':
+        c06.h_func_none(ctx, [2, 2], 1, 1, with_vld=True)
+    else:
+        c06.h_budget(ctx, [2, 2], 1, [0, 0], 1, True)
+
+
 def instances(tier):
     out = []
     quick = tier == 'quick'
@@ -119,6 +128,8 @@ def instances(tier):
     if not quick:
         out.append({'func': 'h_exact', 'params': {'n': [3, 2, 3], 'rho': 2, 'r0': 2, 'dr': [2, 3], 'nswp': 1, 'choices': 'first'}, 'opts': G})
     out.append({'func': 'h_info', 'params': {'n': [2, 2], 'rho': 1}, 'opts': G})
+    for which in ('e_vld_on_interrupt', 'cache_with_budget'):
+        out.append({'func': 'h_interrupted_info', 'params': {'which': which}, 'opts': G})
     return out
 
 
